@@ -118,9 +118,10 @@ func (ds *documentSet) addContext(name string, doc dom.ContainerBuilder, newCtx 
 			if err != nil {
 				return err
 			}
+		} else {
+			newCtx.doc = doc
 		}
 		ds.ctxMap[name] = newCtx
-		ds.names = append(ds.names, name)
 		return nil
 	} else {
 		newCtx.doc = doc
